@@ -266,3 +266,49 @@ fn probe_writer_counter_overflow_no_panic() {
     let r = w.write(&[1, 2, 3]);
     assert!(r.is_err(), "writing past the last nonce counter value must be refused");
 }
+
+/// generic replay probe: the encryption reader against an in-memory cursor over the plaintext, for deterministic
+/// pseudo-random histories of seeks (Start / Current / End within [0, len]) and reads, several lengths
+#[test]
+fn probe_cursor_equivalence_histories() {
+    for n in [0usize, 1, 100, C - 1, C, C + 100, 2 * C, 2 * C + 77, 3 * C + 5] {
+        let plain = pdata(n);
+        let s = penc(n);
+        let mut x: u64 = 0x9E37_79B9_7F4A_7C15 ^ (n as u64);
+        let mut next = || { x ^= x << 13; x ^= x >> 7; x ^= x << 17; x };
+        for _round in 0..6 {
+            let mut r = preader(&s);
+            let mut c = Cursor::new(&plain[..]);
+            for step in 0..40 {
+                let op = next() % 5;
+                let target = if n == 0 { 0 } else { (next() % (n as u64 + 1)) as i64 };
+                let (got, want) = match op {
+                    0 => (r.seek(SeekFrom::Start(target as u64)), c.seek(SeekFrom::Start(target as u64))),
+                    1 => {
+                        let cur = c.position() as i64;
+                        (r.seek(SeekFrom::Current(target - cur)), c.seek(SeekFrom::Current(target - cur)))
+                    }
+                    2 => (r.seek(SeekFrom::End(target - n as i64)), c.seek(SeekFrom::End(target - n as i64))),
+                    _ => {
+                        let k = 1 + (next() % 70_000) as usize;
+                        let mut a = vec![0u8; k];
+                        let mut b = vec![0u8; k];
+                        // read as much as the cursor gives, through possibly short reads of the layer
+                        let wn = c.read(&mut b).unwrap();
+                        let mut gn = 0;
+                        while gn < wn {
+                            let m = r.read(&mut a[gn..wn]).unwrap_or_else(|e| panic!("len {n} step {step}: read failed: {e}"));
+                            if m == 0 { break; }
+                            gn += m;
+                        }
+                        assert_eq!(gn, wn, "len {n} step {step}: layer gave {gn} bytes, cursor gave {wn} (position {})", c.position());
+                        assert!(a[..gn] == b[..wn], "len {n} step {step}: bytes differ");
+                        continue;
+                    }
+                };
+                let got = got.unwrap_or_else(|e| panic!("len {n} step {step}: seek op {op} to {target} failed: {e}"));
+                assert_eq!(got, want.unwrap(), "len {n} step {step}: seek op {op} to {target} returned a different position");
+            }
+        }
+    }
+}
